@@ -114,6 +114,18 @@ CLAIMED = {
         technique="static analysis: branch-structure duality check, must-pass-through with success-conditional callee summaries, "
         "setter invalidation, ownership rule for shared_ptr table elements",
     ),
+    "C17": dict(
+        text="Static analysis of the current source. Decides: every key type registrable through the add_key/add_vectorised_key API has a "
+        "case in parse_value_in_line, in the scalar resp. vectorised switch of set_variable and in value_to_stream / "
+        "vectorised_value_to_stream (what is registered can be parsed, stored and printed back); vectorised values are stored at index-1 "
+        "only under a dominating size test with error() exit (unsigned comparison catches negative indices) and index presence must match "
+        "the registration; the Interfile per-data-set vectors are sized with get_num_datasets(), the bound of the loops that index them; "
+        "header parse and post_processing() results are tested on the reader chain; keywords are standardised before being stored or "
+        "compared, alias resolution follows standardisation and precedes the look-up. NOT decided: absence of out-of-bounds access under "
+        "arbitrary bytes for the whole parser, unbounded allocation, value formatting round trips.",
+        technique="static analysis: switch exhaustiveness against the registration API, must-facts bounds, resolved-callee ordering "
+        "(must-pass-through), result-use discipline",
+    ),
 }
 
 NOT_APPLICABLE = {
